@@ -140,6 +140,10 @@ def run():
     rep.extra["exhaustive"] = True
     rep.extra["explanation"] = ("for every tabulated position with free parameters the real solve loop and the real test-position construction are "
                                 "executed with symbolic parameters (all x,y,z); the guard of the enclosing function carries the post-condition")
+    # spglib is asked about the analysed structure with the analyzer's tolerance; the simple getters are dataset look-ups (shared section)
+    from props import _sym as _symmod
+    from props._util import section as _section
+    _section(rep, "dataset", lambda: _symmod.dataset_section(rep))
     return rep
 
 
